@@ -54,6 +54,7 @@ func body(w *run.Worker) {
 	ctx := context.Background()
 	w.Cases("seq", w.N(960, 20000), func(c *run.Case) { history(ctx, w, c, false) })
 	w.Cases("conctouch", w.N(240, 3000), func(c *run.Case) { history(ctx, w, c, true) })
+	w.Cases("config", w.N(240, 6000), func(c *run.Case) { configured(ctx, w, c) })
 }
 
 func history(ctx context.Context, w *run.Worker, c *run.Case, concTouch bool) {
